@@ -82,7 +82,7 @@ typedef struct {
 	int      nwork[MAXREAL];
 	bool     resp_sock[MAXREAL];
 	bool     use_sock, kills;
-	int      jit_permille, jit_us, exp_permille, exp_us;
+	int      jit_permille, jit_us, exp_permille, exp_min_us, exp_us;
 	uint32_t nonce;
 	uint64_t key;
 } casecfg;
@@ -326,7 +326,7 @@ adv_plan(uint32_t id, uint32_t c, uint32_t s, int dir, pframe *out, bool *kill)
 		n++;
 	}
 	if (vf_chance(r, 1, 4)) n += adv_extra(c, &out[n]);
-	*kill = A.kills && vf_chance(r, 1, 90);
+	*kill = A.kills && vf_chance(r, 1, 40);
 	if (*kill) A.killed++;
 	pthread_mutex_unlock(&A.mtx);
 	return n;
@@ -393,9 +393,11 @@ static void
 dbg_dump(uint64_t from, uint64_t to)
 {
 	uint32_t n = atomic_load(&dbg_n);
-	for (uint32_t k = n > 8192 ? n - 8192 : 0; k < n; k++) {
+	int      lines = 0;
+	for (uint32_t k = n > 8192 ? n - 8192 : 0; k < n && lines < 60; k++) {
 		dbgev *e = &dbg[k % 8192];
 		if (e->t < from || e->t > to) continue;
+		lines++;
 		fprintf(stderr, "DBG %+9lld us fd=%d %s %u %u %u\n", (long long) ((int64_t) (e->t - from) / 1000), e->fd, e->what, e->a, e->b, e->c);
 	}
 }
@@ -412,13 +414,16 @@ static struct {
 	pthread_t acc;
 	tconn     conns[256];
 	int       nconns;
+	_Atomic uint32_t conn_ids;
 } T;
+
+static _Thread_local uint32_t my_conn; // id of the connection this thread serves
 
 static int
 tcp_emit(int fd, const pframe *f)
 {
 	uint8_t  buf[8 + 4 + 128];
-	uint32_t serial = rr_alloc(f->c, f->s, f->klass, SRC_TCP, (uint32_t) fd);
+	uint32_t serial = rr_alloc(f->c, f->s, f->klass, SRC_TCP, my_conn);
 	size_t   bl = build_resp(buf + 12, f->c, f->s, f->klass, serial);
 	memset(buf, 0, 8);
 	put32(buf + 4, (uint32_t) (bl + 4));
@@ -449,7 +454,8 @@ tcp_conn_thread(void *arg)
 		close(fd);
 		return NULL;
 	}
-	dbg_ev(fd, "open", 0, 0, 0);
+	my_conn = atomic_fetch_add(&T.conn_ids, 1) + 1;
+	dbg_ev(fd, "open", my_conn, 0, 0);
 	for (;;) {
 		uint64_t now = vf_now_ns(), next = 0;
 		for (int i = 0; i < ndq;) {
@@ -774,7 +780,7 @@ typedef struct cthr {
 	uint64_t first_rstart, last_rstart; // diagnostics
 	// evidence
 	long dlv[K_N], ops[OP_N], dirs[D_N], surveys, estate_never, estate_expired, estate_ambiguous, deadline_timeouts, own_timeouts, clamp_by[4], cancelled_by_send,
-	    completed_before_send, cancel_won, cancel_lost, must_checked, must_rounds, after_taint[3], fresh_probes, expiry_probe_msgs, idle_expiries;
+	    completed_before_send, cancel_won, cancel_lost, must_checked, must_rounds, after_taint[3], fresh_probes, expiry_probe_msgs, idle_expiries, lost_unconfirmed;
 	bool dlv_seen[OP_N][K_N], res_seen[OP_N][D_N][4];
 } cthr;
 
@@ -824,11 +830,26 @@ rop_fini(rop *o)
 static void
 r_start(cthr *t, rcv *rc, int tmo, const nng_ctx *other)
 {
-	rop *o = &t->r[t->rnext++ % NROP];
-	pthread_mutex_lock(&o->m);
-	if (!o->done) vf_harness_fail("receive slot reused while busy");
-	o->done = false;
-	pthread_mutex_unlock(&o->m);
+	// Never re-submit an aio whose previous operation ended less than 20 ms
+	// ago: the expiry of that operation may still be in flight and would
+	// cancel the new one (a timer defect that property C02 owns).
+	rop *o = NULL;
+	for (int tries = 0; o == NULL; tries++) {
+		uint64_t now = vf_now_ns();
+		for (int k = 0; k < NROP && o == NULL; k++) {
+			rop *q = &t->r[t->rnext++ % NROP];
+			pthread_mutex_lock(&q->m);
+			if (q->done && (q->t_done == 0 || now > q->t_done + 20 * MS)) {
+				q->done = false;
+				o = q;
+			}
+			pthread_mutex_unlock(&q->m);
+		}
+		if (o == NULL) {
+			if (tries > 5000) vf_harness_fail("no idle receive slot");
+			vf_usleep(1000);
+		}
+	}
 	memset(rc, 0, sizeof(*rc));
 	rc->o = o;
 	rc->tmo = tmo;
@@ -1154,13 +1175,20 @@ scan_lost(cthr *t)
 			continue;
 		}
 		snprintf(key, sizeof(key), "C07/live-survey/response-lost/%s/%s", srcname[src % SRC_N], opname[t->op]);
-		// how did the same connection fare afterwards?
+		// A raw TCP connection may have been given up by the surveyor (after a
+		// short frame) without the writer knowing: the frame certainly reached
+		// the protocol only if something written LATER on the same connection
+		// was delivered to somebody.
 		uint32_t conn = atomic_load(&e->conn);
 		int      later = 0, later_dlv = 0;
 		for (uint32_t j = i + 1; j < n; j++) {
-			if (atomic_load(&G.rr[j].conn) != conn || atomic_load(&G.rr[j].src) != src || atomic_load(&G.rr[j].t_after) == 0) continue;
+			if (atomic_load(&G.rr[j].conn) != conn || atomic_load(&G.rr[j].src) != src || atomic_load(&G.rr[j].t_after) == 0 || atomic_load(&G.rr[j].t_before) < ta) continue;
 			later++;
 			if (atomic_load(&G.rr[j].delivered)) later_dlv++;
+		}
+		if (src == SRC_TCP && later_dlv == 0) {
+			t->lost_unconfirmed++;
+			continue;
 		}
 		vf_violation(key, "ctx %d op %s: response frame #%u (%s) to survey %u was written %llu us after the survey was sent (T=%u ms; send took %llu us), the context kept receiving (%d receives, first issued at %llu us, last at %llu us) until a receive timed out, and it was never delivered (same connection afterwards: %d frames written, %d delivered)",
 		    t->idx, opname[t->op], i, kname[kl % K_N], t->seq, (unsigned long long) ((ta - t->t_call) / 1000), t->T, (unsigned long long) ((t->t_ret - t->t_call) / 1000), t->nrecv,
@@ -1368,8 +1396,8 @@ run_case(long idx, const casecfg *cc)
 	char       url[128], durl[MAXREAL + 1][128];
 	int        rv, ndial = 0;
 
-	vf_case_begin(idx, "adv=%s tran=%s ctx=%d%s real=%d rounds=%d kills=%d jitter=%d/%dus expire-delay=%d/%dus key=%llx", akname[cc->adv], vf_tran_names[cc->tran], cc->nctx,
-	    cc->use_sock ? "+sock" : "", cc->nreal, cc->rounds, cc->kills, cc->jit_permille, cc->jit_us, cc->exp_permille, cc->exp_us, (unsigned long long) cc->key);
+	vf_case_begin(idx, "adv=%s tran=%s ctx=%d%s real=%d rounds=%d kills=%d jitter=%d/%dus expire-delay=%d/%d-%dus key=%llx", akname[cc->adv], vf_tran_names[cc->tran], cc->nctx,
+	    cc->use_sock ? "+sock" : "", cc->nreal, cc->rounds, cc->kills, cc->jit_permille, cc->jit_us, cc->exp_permille, cc->exp_min_us, cc->exp_us, (unsigned long long) cc->key);
 	vf_watchdog(300);
 	G.nonce = cc->nonce;
 	G.nctx = cc->nctx;
@@ -1432,7 +1460,7 @@ run_case(long idx, const casecfg *cc)
 	}
 
 	vf_pt_jitter(cc->key, cc->jit_permille, cc->jit_us);
-	if (cc->exp_permille > 0) vf_pt_target(NNI_VP_AIO_EXPIRE_BEFORE_CANCEL, cc->exp_permille, 20, cc->exp_us);
+	if (cc->exp_permille > 0) vf_pt_target(NNI_VP_AIO_EXPIRE_BEFORE_CANCEL, cc->exp_permille, cc->exp_min_us, cc->exp_us);
 	for (int i = 0; i < cc->nctx; i++) {
 		cthr *t = &th[i];
 		t->idx = i;
@@ -1525,6 +1553,7 @@ run_case(long idx, const casecfg *cc)
 		vf_stat("after_own_timeout_estate", t->after_taint[1]);
 		vf_stat("after_own_timeout_timeout", t->after_taint[2]);
 		vf_stat("fresh_ctx_probes", t->fresh_probes);
+		vf_stat("undelivered_on_connection_not_known_alive", t->lost_unconfirmed);
 		vf_stat("deadlines_passed_without_receiver", t->idle_expiries);
 	}
 	vf_stat("surveys", surveys);
@@ -1604,7 +1633,14 @@ main(int argc, char **argv)
 			// stretch the window between an expiry being picked and its
 			// cancel function running
 			c.exp_permille = (int) vf_range(&r, 200, 1000);
+			c.exp_min_us = 20;
 			c.exp_us = (int) vf_range(&r, 100, 2500);
+			if (vf_chance(&r, 1, 3)) {
+				// a pre-emption long enough for a certainly-late response to
+				// meet a receive that should have timed out already
+				c.exp_min_us = (int) vf_range(&r, 5000, 7000);
+				c.exp_us = c.exp_min_us + 4000;
+			}
 		}
 		run_case(idx, &c);
 	}
